@@ -139,19 +139,13 @@ func (fo *formatOracle) afterStep(i int, op core.Op, err error, s *core.Sys) []c
 		}
 		tr := fo.tracks[sg.ID]
 		if len(tr.batches) == 0 {
-			if !allZero(file) {
-				bad("%s: nothing was ever committed to it but it is not all zeros", name)
-			}
-			continue
+			continue // nothing committed yet: the statement constrains files only up to their last commit
 		}
 		enc, is := fmtspec.EncodeSegment(fmtspec.Header{BaseIndex: sg.BaseIndex, ID: sg.ID, Codec: sg.Codec}, tr.batches)
 		if len(file) < len(enc) || !bytes.Equal(file[:len(enc)], enc) {
 			at := firstDiff(file, enc)
 			bad("%s differs from the independent encoding of its %d acknowledged batches at byte %d (file %s, spec %s)", name, len(tr.batches), at, hexAround(file, at), hexAround(enc, at))
 			continue
-		}
-		if !allZero(file[len(enc):]) {
-			bad("%s: bytes after the last commit frame are not zero", name)
 		}
 		sealed := !sg.SealTime.IsZero()
 		if sealed && sg.IndexStart != is {
